@@ -204,7 +204,7 @@ def step (s : St) (t : Tid) (e : Ev) : Option St :=
   | .wCalled k, .ld .act .sc v =>
       if v = s.flag .act then
         some (if v then { s with obs := upd s.obs t (some s.actClear) }.setPc t (.wLock k)
-              else s.setPc t (.wRet k true))
+              else { s with obs := upd s.obs t none }.setPc t (.wRet k true))
       else none
   | .wLock k, .mlk m => if m = k.side then s.acquire m t (.wHold k false) else none
   | .wHold k _, .ld a .sc v =>
